@@ -23,6 +23,7 @@ mod c16;
 mod c17;
 mod c18;
 mod c19;
+mod c20;
 mod gen;
 
 use util::Rng;
@@ -66,6 +67,7 @@ fn main() {
         "C17" => c17::run(&mut rng, n),
         "C18" => c18::run(&mut rng, n),
         "C19" => c19::run(&mut rng, n),
+        "C20" => c20::run(&mut rng, n),
         _ => {
             eprintln!("unknown property {prop}");
             std::process::exit(2);
